@@ -13,6 +13,7 @@ type Outcome struct {
 	Status int    // 0 = implicit (Write without WriteHeader, or nothing at all when Body is empty)
 	Body   string // written after the status
 	Panic  bool   // panic instead of returning
+	Info   int    // informational status (e.g. 103) sent before the final one
 	// Mutate, if set, is applied to the request the handler was given right before it
 	// returns (handlers scrub or rewrite headers, Host, RemoteAddr before proxying).
 	Mutate func(r *http.Request)
@@ -78,6 +79,9 @@ func (g *Gate) ServeHTTP(w http.ResponseWriter, r *http.Request) {
 	}
 	if o.Panic {
 		panic(fmt.Sprintf("gate: scripted panic of call %d", c.ID))
+	}
+	if o.Info != 0 {
+		w.WriteHeader(o.Info)
 	}
 	if o.Status != 0 {
 		w.WriteHeader(o.Status)
